@@ -26,6 +26,10 @@
 //                                   or input finished) before it looks at Value().  Every block is printed with the
 //                                   ownership observation made when Next() returned (tmp_ != NULL and Value()
 //                                   points into (*tmp_)[data_ptr_-1])                           -> blocks [..]@1[..]@1
+//   cpipe <fmt> <maxthread> <nparts> <bufwords> <chunks>  (VH_WITH_DATACC build only) the document written to a real file and
+//                                   read through dmlc::Parser<I,D>::Create(uri?format=..&.., k, nparts, "auto"|name) of
+//                                   src/data.cc for every part; <maxthread> = what TextParserBase allows on this
+//                                   host, the model takes min(<maxthread>, the factory's thread count, Gen)      -> blocks [..]..
 //   <fmt> = svm:<iw>:<mode> | fm:<iw>:<mode> | csv:<iw>:<f32|i32|i64>:<label_column>:<weight_column>:<delimiter byte>
 // A row prints as (label weight qid fields indices values), `~` = NULL pointer, `-` = empty list; float
 // values as binary32 bit patterns, integer cells as two's complement.
@@ -72,6 +76,12 @@
 #include "common/memfs.h"
 #include "common/proto.h"
 
+// VH_WITH_DATACC: a second build of this file (no sanitizers) is linked with the real src/data.cc, src/io.cc and the
+// local file system and drives Parser<I,D>::Create itself (op `cpipe`): factory registry, URI arguments -> parameters,
+// the thread count the factories pass, the ThreadedParser wrapper.  The default build registers the parameter
+// structs itself instead (data.cc costs minutes under ASan and would mix instrumented and plain copies of the
+// parser templates in one binary).
+#ifndef VH_WITH_DATACC
 namespace dmlc {
 namespace data {
 DMLC_REGISTER_PARAMETER(LibSVMParserParam);
@@ -79,9 +89,11 @@ DMLC_REGISTER_PARAMETER(LibFMParserParam);
 DMLC_REGISTER_PARAMETER(CSVParserParam);
 }  // namespace data
 }  // namespace dmlc
+#endif
 
 // src/io/filesys.cc (needed for FileSystem::ListDirectoryRecursive) refers to the factory of src/io.cc, which
 // would pull in every InputSplit flavour; nothing here goes through it
+#ifndef VH_WITH_DATACC
 namespace dmlc {
 namespace io {
 FileSystem *FileSystem::GetInstance(const URI &) {
@@ -90,6 +102,7 @@ FileSystem *FileSystem::GetInstance(const URI &) {
 }
 }  // namespace io
 }  // namespace dmlc
+#endif
 
 using vh::Case;
 typedef std::map<std::string, std::string> Args;
@@ -561,6 +574,71 @@ static Outcome run_tpipe(const Fmt &f, const std::string &doc, int nthread, unsi
   return all;
 }
 
+#ifdef VH_WITH_DATACC
+static std::string g_real_dir;
+template <typename I, typename D>
+static Outcome do_create(const Fmt &f, const std::string &uri, unsigned k, unsigned nparts, const char *type) {
+  Outcome o;
+  try {
+    std::unique_ptr<dmlc::Parser<I, D>> p(dmlc::Parser<I, D>::Create(uri.c_str(), k, nparts, type));
+    while (true) {
+      bool more;
+      try {
+        more = p->Next();
+      } catch (const dmlc::Error &) {
+        o.status = ERR_CHECK;
+        break;
+      }
+      if (!more) break;
+      std::vector<RowS> rows;
+      read_rows_block<I, D>(p->Value(), &rows);
+      o.blocks.push_back(rows);
+    }
+  } catch (const dmlc::Error &) {
+    o.status = ERR_CHECK;
+  }
+  return o;
+}
+static Outcome run_cpipe(const Fmt &f, const std::string &doc, unsigned nparts, bool by_name) {
+  Outcome all;
+  std::string path = g_real_dir + "/doc.txt";
+  {
+    FILE *fp = fopen(path.c_str(), "wb");
+    fwrite(doc.data(), 1, doc.size(), fp);
+    fclose(fp);
+  }
+  std::string uri = path, type = "auto";
+  if (f.kind == "svm") uri += "?format=libsvm&indexing_mode=" + std::to_string(f.mode);
+  else if (f.kind == "fm") uri += "?format=libfm&indexing_mode=" + std::to_string(f.mode);
+  else uri += "?format=csv&label_column=" + std::to_string(f.label_col) + "&weight_column=" + std::to_string(f.weight_col) +
+              "&delimiter=" + std::string(1, static_cast<char>(f.delim));
+  if (by_name) type = f.kind == "svm" ? "libsvm" : f.kind == "fm" ? "libfm" : "csv";
+  for (unsigned k = 0; k < nparts; ++k) {
+    Outcome o;
+    if (f.kind != "csv" || f.dt == "f32") {
+      if (f.iw == 32) o = do_create<uint32_t, float>(f, uri, k, nparts, type.c_str());
+      else o = do_create<uint64_t, float>(f, uri, k, nparts, type.c_str());
+    } else if (f.dt == "i32") {
+      if (f.iw == 32) o = do_create<uint32_t, int32_t>(f, uri, k, nparts, type.c_str());
+      else o = do_create<uint64_t, int32_t>(f, uri, k, nparts, type.c_str());
+    } else {
+      if (f.iw == 32) o = do_create<uint32_t, int64_t>(f, uri, k, nparts, type.c_str());
+      else o = do_create<uint64_t, int64_t>(f, uri, k, nparts, type.c_str());
+    }
+    if (o.status != OK) { all.status = o.status; break; }
+    all.blocks.insert(all.blocks.end(), o.blocks.begin(), o.blocks.end());
+  }
+  if (all.status != OK) {
+    all.blocks.clear();
+    all.text = status_str(all.status);
+  } else {
+    all.text = "blocks ";
+    for (auto &b : all.blocks) all.text += "[" + show_rows(b) + "]";
+  }
+  return all;
+}
+#endif
+
 static bool is_eol(char c) { return c == '\n' || c == '\r'; }
 static std::vector<std::string> eol_split(const std::string &doc) {
   std::vector<std::string> v;
@@ -804,6 +882,19 @@ struct ParseHarness : vh::Harness {
                      static_cast<size_t>(atoi(w[4].c_str())), &seen);
         if (o.status == OK && show_chunks(seen) != w[5]) o.text = "chunks-differ " + show_chunks(seen);
       }
+#ifdef VH_WITH_DATACC
+    } else if (w[0] == "cpipe" && w.size() == 6) {
+      Fmt f = parse_fmt(w[1]);
+      if (!f.ok) o.text = "bad-op";
+      else {
+        std::vector<ChunkRec> seen;
+        unsigned np = static_cast<unsigned>(atoi(w[3].c_str()));
+        o = run_cpipe(f, doc, np, (outs.size() % 2) == 1);
+        if (o.status == OK && (!observe_chunks(doc, np, static_cast<size_t>(atoi(w[4].c_str())), &seen) || show_chunks(seen) != w[5]))
+          o.text = "chunks-differ " + show_chunks(seen);
+        if (extra) ++(*extra)["cpipe_ops"];
+      }
+#endif
     } else if (w[0] == "tpipe" && w.size() == 6) {
       Fmt f = parse_fmt(w[1]);
       if (!f.ok) o.text = "bad-op";
@@ -846,7 +937,7 @@ struct ParseHarness : vh::Harness {
         ExpRow e;
         if (!parse_exp(w, &e)) table_ok = false;
         table.push_back(e);
-      } else if (w[0] == "block" || w[0] == "perline" || w[0] == "fill" || w[0] == "pipe" || w[0] == "tpipe") {
+      } else if (w[0] == "block" || w[0] == "perline" || w[0] == "fill" || w[0] == "pipe" || w[0] == "tpipe" || w[0] == "cpipe") {
         by_fmt[w[1]].push_back(i);
       }
     }
@@ -1262,6 +1353,58 @@ static void gen_random_doc(Gen &G, const std::string &kind, int level) {
   run_token_doc(G, "random", fmt, doc, level, true);
 }
 
+#ifdef VH_WITH_DATACC
+// documents read through the real factories of src/data.cc (Parser<I,D>::Create on a real file)
+static void gen_create_doc(Gen &G, const std::string &kind, bool c12) {
+  vh::Rng &r = *G.rng;
+  int iw = r.chance(1, 3) ? 64 : 32;
+  std::string fmt;
+  std::string doc;
+  Case c;
+  size_t nl = 1 + r.below(G.quick ? 14 : 40);
+  if (kind == "csv") {
+    static const char *dts[] = {"f32", "f32", "i32", "i64"};
+    std::string dt = dts[r.below(4)];
+    int lc = r.chance(1, 2) ? static_cast<int>(r.below(3)) : -1;
+    int wc = dt == "f32" && r.chance(1, 4) ? static_cast<int>(r.below(3)) : -1;
+    if (wc == lc) wc = -1;
+    static const char delims[] = {',', ',', '|', ':'};
+    char delim = delims[r.below(4)];
+    fmt = "csv:" + std::to_string(iw) + ":" + dt + ":" + std::to_string(lc) + ":" + std::to_string(wc) + ":" + std::to_string(static_cast<int>(delim));
+    for (size_t i = 0; i < nl; ++i) {
+      std::string l;
+      for (int k = 0; k < 4; ++k) l += (k ? std::string(1, delim) : std::string()) + (r.chance(1, 9) && k > 0 && k < 3 ? std::string() : std::to_string(r.below(90)));
+      doc += l + (r.chance(1, 6) ? "\r\n" : "\n");
+    }
+  } else {
+    int mode = static_cast<int>(r.below(2));
+    fmt = kind + ":" + std::to_string(iw) + ":" + std::to_string(mode);
+    bool w = r.chance(1, 3), q = kind == "svm" && r.chance(1, 3);
+    for (size_t i = 0; i < nl; ++i) {
+      std::string l = std::to_string(r.below(3));
+      if (w) l += ":" + std::to_string(1 + r.below(4));
+      if (q) l += " qid:" + std::to_string(r.below(5));
+      size_t ne = r.below(4);
+      for (size_t k = 0; k < ne; ++k) {
+        l += r.chance(1, 5) ? "\t" : " ";
+        if (kind == "fm") l += std::to_string(mode + r.below(7)) + ":";
+        l += std::to_string(mode + r.below(40)) + ":" + std::to_string(r.below(9)) + (r.chance(1, 3) ? ".5" : "");
+      }
+      doc += l + "\n";
+      if (r.chance(1, 10)) doc += kind == "svm" ? "# comment 1:2\n" : "\n";
+    }
+  }
+  c.kind = std::string(c12 ? "create12 " : "create ") + fmt;
+  for (auto &op : G.doc_ops(doc, true)) c.ops.push_back(op);
+  c.ops.push_back("perline " + fmt);
+  for (unsigned np = 1; np <= 3; np += 1 + static_cast<unsigned>(r.below(2))) {
+    std::string op = G.pipe_op(fmt, doc, g_maxthread, np, dmlc::io::InputSplitBase::kBufferSize);
+    if (!op.empty()) c.ops.push_back("c" + op);
+  }
+  G.R->run_case(c);
+}
+#endif
+
 // long documents of well-formed lines behind ThreadedParser with 1..3-word buffers: more chunks than the prefetch
 // queue (capacity 8) has cells, so cells are recycled and refilled while earlier blocks are still being read
 static void gen_threaded_doc(Gen &G, const std::string &kind) {
@@ -1357,9 +1500,22 @@ int main(int argc, char **argv) {
   g_maxthread = std::max(omp_get_num_procs() / 2 - 4, 1);  // what TextParserBase allows on this host
   if (g_maxthread > 4) g_maxthread = 4;
   R.extra["max_parser_threads"] = g_maxthread;
+#ifdef VH_WITH_DATACC
+  g_real_dir = R.out_dir;
+#endif
   if (R.run_replay()) { R.finish(); return 0; }
   vh::Rng rng(R.seed);
   Gen G{&R, &rng, !R.thorough()};
+#ifdef VH_WITH_DATACC
+  {
+    g_real_dir = R.out_dir;
+    size_t n = R.thorough() ? 3000 : 300;
+    static const char *kinds[] = {"svm", "fm", "csv"};
+    for (size_t i = 0; i < n; ++i) gen_create_doc(G, kinds[i % 3], H.prop == "C12");
+    R.finish();
+    return 0;
+  }
+#endif
   corpus(G);
   if (H.prop == "C12") {
     corpus_tables(G);
